@@ -354,10 +354,11 @@ Section Oracles.
   (* emitters                                                         *)
 
   Definition hex_digit (d : N) : N := if d <? 10 then 48 + d else 87 + d.
+  (* the k low hex digits of c, most significant first *)
   Fixpoint hex_digits (k : nat) (c : N) : str :=
     match k with
     | O => []
-    | S k' => hex_digits k' (c / 16) ++ [hex_digit (c mod 16)]
+    | S k' => hex_digit ((c / 16 ^ N.of_nat k') mod 16) :: hex_digits k' c
     end.
 
   (* strconv.appendEscapedRune for the double quote *)
@@ -409,10 +410,15 @@ Section Oracles.
      newline dropped; the block is followed by one newline. *)
   Definition pad_line (n : nat) (l : str) : str :=
     if all_spaces l then [] else repeat c_sp n ++ l.
-  Definition drop_last_empty (ls : list str) : list str :=
-    match rev ls with
-    | [] :: (_ :: _) as r => rev r
-    | _ => ls
+  Fixpoint drop_last_empty (ls : list str) : list str :=
+    match ls with
+    | x :: r =>
+      match r with
+      | [] => ls
+      | [[]] => [x]
+      | _ => x :: drop_last_empty r
+      end
+    | [] => []
     end.
   Definition literal_lines (n : nat) (s : str) : list str :=
     map (pad_line n) (drop_last_empty (split_nl s)).
@@ -716,20 +722,64 @@ Definition ends_with (suf s : str) : bool := is_prefix (rev suf) (rev s).
 Definition quirk_merge (is_key : bool) (plain : bool) (s : str) : bool :=
   is_key && plain && ends_with [60; 60] s.
 
-(* goccy scanner.scanMultiLine: in the first line of a literal block that has
-   a character other than blank and tab, a leading tab does not fix the block's
-   indentation, the first other character does; every later content line is
-   then misread. *)
-Fixpoint drop_blank_lines (ls : list str) : list str :=
-  match ls with
-  | l :: r => if forallb is_white l then drop_blank_lines r else ls
-  | [] => []
+(* goccy scanner.scanMultiLine (literal blocks without indentation indicator).
+   Until a character other than blank and tab has been seen, leading blanks of
+   a line are dropped and leading tabs are kept; the column of that first
+   character becomes the block's indentation column F.  Afterwards leading
+   blanks in columns >= F are content, a leading tab in a column < F is an
+   error, and a line whose first other character is in a column < F ends the
+   block (what follows is then not part of the scalar: reported as failure).
+   YAML instead takes the indentation from the first non-empty line, tabs
+   included. *)
+Fixpoint g_lead1 (l : str) (col : nat) (kept : str) : option (str * option (nat * str)) :=
+  match l with
+  | [] => Some (rev kept, None)
+  | c :: r =>
+    if c =? c_sp then g_lead1 r (S col) kept
+    else if c =? c_tab then (if Nat.eqb col 1 then None else g_lead1 r (S col) (c :: kept))
+    else Some (rev kept, Some (col, l))
   end.
-Definition quirk_tab (literal : bool) (s : str) : bool :=
-  literal &&
-  match drop_blank_lines (split_nl s) with
-  | (c :: _) :: later => (c =? c_tab) && existsb (fun l => negb (all_spaces l)) later
-  | _ => false
+Fixpoint g_lead2 (F : nat) (l : str) (col : nat) (kept : str) : option (option str) :=
+  match l with
+  | [] => Some (Some (rev kept))
+  | c :: r =>
+    if c =? c_sp then g_lead2 F r (S col) (if Nat.leb F col then c :: kept else kept)
+    else if c =? c_tab then (if Nat.ltb col F then None else g_lead2 F r (S col) (c :: kept))
+    else if Nat.ltb col F then Some None
+    else Some (Some (rev kept ++ l))
+  end.
+Fixpoint g_lines (F : option nat) (ls : list str) : option (list str) :=
+  match ls with
+  | [] => Some []
+  | l :: r =>
+    match F with
+    | None =>
+      match g_lead1 l 1 [] with
+      | None => None
+      | Some (kept, None) =>
+        match g_lines None r with Some cs => Some (kept :: cs) | None => None end
+      | Some (kept, Some (col, rest)) =>
+        match g_lines (Some col) r with Some cs => Some ((kept ++ rest) :: cs) | None => None end
+      end
+    | Some f =>
+      match g_lead2 f l 1 [] with
+      | Some (Some c) => match g_lines F r with Some cs => Some (c :: cs) | None => None end
+      | _ => None
+      end
+    end
+  end.
+Definition goccy_literal (t : str) : option str :=
+  if mem_chr c_cr t then None else
+  match parse_header t with
+  | None => None
+  | Some (c, body) =>
+    match text_lines body with
+    | None => None
+    | Some ls => match g_lines None ls with
+                 | Some cs => Some (apply_chomp c cs)
+                 | None => None
+                 end
+    end
   end.
 
 (* cue/literal Form.Append with WithOptionalHashes (decode.go quotedString):
@@ -738,3 +788,8 @@ Definition quirk_tab (literal : bool) (s : str) : bool :=
    string.  [lit_ok] is the verdict of literal.Unquote(Quote(s)) == s. *)
 Definition quirk_cuelit (is_key : bool) (lit_ok : bool) (s : str) : bool :=
   negb is_key && negb lit_ok && is_prefix [c_dq; c_dq] s && negb (has_nl s).
+
+(* goccy parser: a literal block without any content line must be the last
+   node of the document ("could not find multi-line content" otherwise). *)
+Definition quirk_blank_followed (followed : bool) (literal : bool) (s : str) : bool :=
+  followed && literal && forallb (N.eqb c_nl) s.
